@@ -14,7 +14,9 @@ ORIG = LW.f.__code__
 
 
 def run_case(case):
-    p = Probe("f > a", env={"f": LW.f})
+    wrap = case.get("sel") == "wrap"
+    # wrap: a selector with two focuses - every call gives a "begin" event (a is bound) and an "end" event (r is bound)
+    p = Probe("f(!a, !!r)" if wrap else "f > a", env={"f": LW.f})
     stages = {}
     steps = []
     for op in case["ops"]:
@@ -53,6 +55,27 @@ def run_case(case):
                     p.__exit__(None, None, None)
             elif op[0] == "call":
                 LW.f(op[1])
+            elif op[0] == "calld":
+                # the probe is deactivated while a call of f is in progress (from the function f calls), and a stage is attached
+                # right afterwards; f then finishes
+                orig_g = LW.g
+
+                def hook(y, op=op):
+                    LW.g = orig_g
+                    if op[2] == "explicit":
+                        p.deactivate()
+                    else:
+                        p.__exit__(None, None, None)
+                    rec = {"kind": "accum", "vals": [], "done": 0, "err": 0, "bare": False}
+                    p["a"].subscribe(lambda v, rec=rec: rec["vals"].append(v), lambda e, rec=rec: rec.__setitem__("err", rec["err"] + 1),
+                                     lambda rec=rec: rec.__setitem__("done", rec["done"] + 1))
+                    stages[op[3]] = rec
+                    return orig_g(y)
+                LW.g = hook
+                try:
+                    LW.f(op[1])
+                finally:
+                    LW.g = orig_g
         except Exception as ex:
             outcome = type(ex).__name__
         cur = HandlerCollection.current.get()
@@ -73,7 +96,7 @@ def run_case(case):
         st.instrument_count = 0
         st.captures.clear()
         st._apply(LW.f)
-    return {"id": case["id"], "steps": steps}
+    return {"id": case["id"], "per": 2 if wrap else 1, "steps": steps}
 
 
 def main():
